@@ -53,7 +53,7 @@ ALPHABETS = {
 
 BYTES_ALPHABETS = {
     'bytes15': [b'#', b'coding', b':', b'=', b' ', b'utf-8', b'latin-1', b'\n', b'\r', b'\xef\xbb\xbf',
-                b'\xe9', b'\xc3\xa9', b'x', b'-*-', b'cp1252', b'nope', b'\f', b'a = 1'],
+                b'\xe9', b'\xc3\xa9', b'x', b'-*-', b'cp1252', b'nope', b'\f', b'a = 1', b'iso8859_15', b'\xa4'],
 }
 
 
